@@ -373,6 +373,12 @@ def gen_input_spec(family, p, rng, dtype=None, small=False):
         shape[0] = 0                               # empty batch
     elif r < 0.04:
         shape[1] = 3 if (family in ("scat", "scat2") and p.get("combine_colour")) else 5
+    elif r < 0.065:
+        # a batch beyond any plausible small-batch threshold (chunked / slab code
+        # paths), on the smallest images so that it stays cheap
+        shape[0] = _pick(rng, [33, 40, 65, 130])
+        for i in range(2, len(shape)):
+            shape[i] = min(shape[i], 16)
     fill = None
     r = rng.random()
     if r < 0.09:
